@@ -16,6 +16,9 @@ def canon(x):
     return json.dumps(x, sort_keys=True, separators=(",", ":"), default=str)
 
 
+MAX_HANGS = 6
+
+
 def explore(ad, max_depth=8, max_nodes=200000, audit_rng=None, audit_pairs=60):
     root = ad.make()
     norm = getattr(ad, "norm_obs", None) or (lambda o: o)
@@ -27,6 +30,7 @@ def explore(ad, max_depth=8, max_nodes=200000, audit_rng=None, audit_pairs=60):
     rootproj = ad.project(root)
     i = 0
     truncated = False
+    hangs = 0
     while i < len(nodes):
         nd = nodes[i]
         nd["cf"], nd["cl"] = len(nodes), len(nodes) - 1
@@ -51,8 +55,14 @@ def explore(ad, max_depth=8, max_nodes=200000, audit_rng=None, audit_pairs=60):
             post = ad.project(w)
             k = key(w)
             leaf = k in seen
+            if isinstance(obs, dict) and obs.get("hang"):
+                leaf = True                  # a call that never returned: the object is not usable further; do not replay this path again
+                hangs += 1
+                k = None
             cid = len(nodes)
-            if leaf:
+            if k is None:
+                pass
+            elif leaf:
                 if audit_rng is not None and audit_rng.random() < 0.05 and len(merged) < 1500:
                     merged.append((seen[k], nd["path"] + [a]))
             else:
@@ -61,6 +71,11 @@ def explore(ad, max_depth=8, max_nodes=200000, audit_rng=None, audit_pairs=60):
             edges.append({"id": cid, "parent": i, "act": a, "obs": obs, "post": post, "leaf": leaf})
         nd["cl"] = len(nodes) - 1
         i += 1
+        if hangs >= MAX_HANGS:               # enough evidence; every further path through the hanging call would cost the full allowance again
+            truncated = True
+            for rest in nodes[i:]:
+                rest["cf"], rest["cl"] = len(nodes), len(nodes) - 1
+            break
     for k in range(1, len(nodes)):
         edges[k]["cf"], edges[k]["cl"] = nodes[k]["cf"], nodes[k]["cl"]
     # dedup audit: merged states must be observationally equal one step ahead.  A discrepancy means the projection hides
